@@ -192,7 +192,7 @@ def judge_ddx(case, acc):
     try:
         it = InterpND(method=method, points=tuple(grids), values=v1.copy(), extrapolate=case['extrapolate'], **opts)
     except Exception as e:
-        rep.viol('%s:construct-raises:%s@%s' % (method, type(e).__name__, _where(e)), str(e)[:200])
+        rep.viol('raises:%s@%s:construct:%s' % (type(e).__name__, _where(e), method), str(e)[:200])
         return
     acc.count('cell:ddx:' + method)
     use_cs = method not in R.SCIPY_ORDER
@@ -223,13 +223,13 @@ def judge_ddx(case, acc):
                     ok_plain = True
                 except Exception:
                     pass
-            rep.viol('%s:interpolate-derivative-raises:%s@%s%s' % (method, type(e).__name__, _where(e),
-                                                                   _optkey(opts) if ok_plain else ''),
+            rep.viol('raises:%s@%s:interpolate-derivative%s:%s' % (type(e).__name__, _where(e),
+                                                                   _optkey(opts) if ok_plain else '', method),
                      str(e)[:200])
             singles.append(None)
             continue
         if d.shape != (nd,):
-            rep.viol('%s:d_dx-shape' % method, 'derivative shape %s for %d-D point' % (d.shape, nd))
+            rep.viol('d_dx-shape:%s' % method, 'derivative shape %s for %d-D point' % (d.shape, nd))
             singles.append(None)
             continue
         cond = 0.0
@@ -249,7 +249,7 @@ def judge_ddx(case, acc):
                     tol[ax] = 2 * base
                     acc.count('obs:d_dx:complex-step')
                     if not abs(fc.real - f) <= 2 * delta:
-                        rep.viol('%s:complex-step-changes-value' % method,
+                        rep.viol('complex-step-changes-value:%s' % method,
                                  'f(x)=%r but Re f(x+ih)=%r' % (f, fc.real))
                 else:
                     h = dist[ax] / 4.0
@@ -262,13 +262,13 @@ def judge_ddx(case, acc):
                     tol[ax] = base + (11.0 / 6.0) * 2 * delta / h
                     acc.count('obs:d_dx:fd7')
         except Exception as e:
-            rep.viol('%s:interpolate-raises:%s@%s' % (method, type(e).__name__, _where(e)), str(e)[:200])
+            rep.viol('raises:%s@%s:interpolate:%s' % (type(e).__name__, _where(e), method), str(e)[:200])
             singles.append(None)
             continue
         rep.judged = True
         for ax in range(nd):
             if not abs(d[ax] - ref[ax]) <= tol[ax]:
-                rep.viol('%s:d_dx' % method,
+                rep.viol('d_dx:%s' % method,
                          'x=%s axis %d (of %d): returned %r, numerical %r (|d|=%.3g, tol %.3g)'
                          % (x.tolist(), ax, nd, d[ax], ref[ax], abs(d[ax] - ref[ax]), tol[ax]))
                 break
@@ -284,11 +284,11 @@ def judge_ddx(case, acc):
             g = np.asarray(it.gradient(xq), dtype=float).ravel()
             acc.count('obs:gradient-method')
             if g.shape != (nd,) or not np.all(np.abs(g - singles[k1][0]) <= singles[k1][1]):
-                rep.viol('%s:gradient-method' % method,
+                rep.viol('gradient-method:%s' % method,
                          'gradient(x) after another point was cached: %s, interpolate(x, compute_derivative=True): %s'
                          % (g.tolist(), singles[k1][0].tolist()))
         except Exception as e:
-            rep.viol('%s:gradient-raises:%s@%s' % (method, type(e).__name__, _where(e)), str(e)[:200])
+            rep.viol('raises:%s@%s:gradient:%s' % (type(e).__name__, _where(e), method), str(e)[:200])
     # ---- batched call
     if len(ks) >= 2:
         X = np.array([P[k][0] for k in ks])
@@ -298,11 +298,11 @@ def judge_ddx(case, acc):
             for j, k in enumerate(ks):
                 acc.count('obs:d_dx:batched')
                 if not np.all(np.abs(D[j] - singles[k][0]) <= singles[k][1]):
-                    rep.viol('%s:d_dx-batched' % method, 'point %s: batched %s, alone %s'
+                    rep.viol('d_dx-batched:%s' % method, 'point %s: batched %s, alone %s'
                              % (X[j].tolist(), D[j].tolist(), singles[k][0].tolist()))
                     break
         except Exception as e:
-            rep.viol('%s:batched-derivative-raises:%s@%s' % (method, type(e).__name__, _where(e)), str(e)[:200])
+            rep.viol('raises:%s@%s:batched-derivative:%s' % (type(e).__name__, _where(e), method), str(e)[:200])
     rep.done()
 
 
@@ -320,7 +320,7 @@ def judge_train(case, acc):
     try:
         its = [InterpND(method=method, points=tuple(grids), values=v.copy(), extrapolate=True) for v in (v1, v2, v3)]
     except Exception as e:
-        rep.viol('%s:construct-raises:%s@%s' % (method, type(e).__name__, _where(e)), str(e)[:200])
+        rep.viol('raises:%s@%s:construct:%s' % (type(e).__name__, _where(e), method), str(e)[:200])
         return
     acc.count('cell:train:' + method)
     for _ in range(4):
@@ -333,10 +333,10 @@ def judge_train(case, acc):
             f = [float(_val(it, x.copy())[0]) for it in its]
             tg = np.asarray(its[0].training_gradients(x.copy()), dtype=float)
         except Exception as e:
-            rep.viol('%s:training_gradients-raises:%s@%s' % (method, type(e).__name__, _where(e)), str(e)[:200])
+            rep.viol('raises:%s@%s:training_gradients:%s' % (type(e).__name__, _where(e), method), str(e)[:200])
             break
         if tg.size != v1.size:
-            rep.viol('%s:training-gradient-size' % method, 'shape %s, table %s' % (tg.shape, v1.shape))
+            rep.viol('training-gradient-size:%s' % method, 'shape %s, table %s' % (tg.shape, v1.shape))
             break
         # (the N-D result is an outer product that numpy flattens; the components reshape it in C order)
         tg = tg.reshape(v1.shape)
@@ -346,13 +346,13 @@ def judge_train(case, acc):
             tol = 4 * delta + 8 * R.EPS * float(np.abs(tg * v).sum())
             got = float((tg * v).sum())
             if not abs(got - f[j]) <= tol:
-                rep.viol('%s:training-gradient-identity' % method,
+                rep.viol('training-gradient-identity:%s' % method,
                          'x=%s: <training_gradients, values>=%r but interpolate=%r (tol %.3g)'
                          % (x.tolist(), got, f[j], tol))
                 break
         acc.count('obs:superposition')
         if not abs(f[2] - (f[0] + alpha * f[1])) <= 4 * delta * (1 + abs(alpha)):
-            rep.viol('%s:superposition' % method, 'f(v1+a v2)=%r, f(v1)+a f(v2)=%r' % (f[2], f[0] + alpha * f[1]))
+            rep.viol('superposition:%s' % method, 'f(v1+a v2)=%r, f(v1)+a f(v2)=%r' % (f[2], f[0] + alpha * f[1]))
     rep.done()
 
 
@@ -425,7 +425,7 @@ def judge_spline(case, acc):
         r1 = np.asarray(r1, dtype=float).reshape(vec, n_i)
         d1 = _as3(d1, vec, n_i, n_cp).astype(float)
     except Exception as e:
-        rep.viol('%s:evaluate_spline-raises:%s@%s' % (method, type(e).__name__, _where(e)), str(e)[:200])
+        rep.viol('raises:%s@%s:evaluate_spline:%s' % (type(e).__name__, _where(e), method), str(e)[:200])
         return
     acc.count('cell:spline:' + method)
     if method == 'akima':
@@ -441,7 +441,7 @@ def judge_spline(case, acc):
                 rc = np.asarray(make().evaluate_spline(vc)).reshape(vec, n_i)
                 ref[:, :, j] = rc.imag / CS
         except Exception as e:
-            rep.viol('akima:evaluate_spline-complex-raises:%s@%s' % (type(e).__name__, _where(e)), str(e)[:200])
+            rep.viol('raises:%s@%s:evaluate_spline-complex:akima' % (type(e).__name__, _where(e)), str(e)[:200])
             return
         rep.judged = True
         acc.count('obs:spline:akima-complex-step')
@@ -450,14 +450,14 @@ def judge_spline(case, acc):
         err = np.abs(d1 - ref).max(axis=2)
         if not np.all(err <= tol):
             i = np.unravel_index(np.argmax(err - tol), err.shape)
-            rep.viol('akima:evaluate_spline:d_dvalues' + _optkey(opts),
+            rep.viol('evaluate_spline:d_dvalues' + _optkey(opts) + ':akima',
                      'x_interp=%r: returned %s, complex step %s (tol %.3g)'
                      % (float(xi[i[1]]), d1[i].tolist(), ref[i].tolist(), tol[i]))
         # homogeneity (Euler): only when the |.| is not smoothed
         if not opts.get('delta_x'):
             got = np.einsum('vij,vj->vi', d1, v1)
             if not np.all(np.abs(got - r1) <= 8 * delta[None, :] + 64 * R.EPS * cond * vmax * vmax):
-                rep.viol('akima:evaluate_spline:euler-identity', 'J.v=%s, f=%s' % (got.tolist(), r1.tolist()))
+                rep.viol('evaluate_spline:euler-identity:akima', 'J.v=%s, f=%s' % (got.tolist(), r1.tolist()))
         rep.done()
         return
     # ---- linear methods
@@ -468,7 +468,7 @@ def judge_spline(case, acc):
         r3 = np.asarray(r3, dtype=float).reshape(vec, n_i)
         d2 = _as3(d2, vec, n_i, n_cp).astype(float)
     except Exception as e:
-        rep.viol('%s:evaluate_spline-raises:%s@%s' % (method, type(e).__name__, _where(e)), str(e)[:200])
+        rep.viol('raises:%s@%s:evaluate_spline:%s' % (type(e).__name__, _where(e), method), str(e)[:200])
         return
     rep.judged = True
     acc.count('obs:spline:identity')
@@ -477,19 +477,19 @@ def judge_spline(case, acc):
         got = np.einsum('vij,vj->vi', d, v)
         tol = 4 * delta[None, :] + 8 * R.EPS * np.einsum('vij,vj->vi', np.abs(d), np.abs(v))
         if not np.all(np.abs(got - r) <= tol):
-            rep.viol('%s:evaluate_spline:identity' % method,
+            rep.viol('evaluate_spline:identity:%s' % method,
                      'J.values=%s but spline=%s' % (got[0].tolist()[:4], r[0].tolist()[:4]))
             break
     acc.count('obs:spline:jacobian-value-independent')
     if not np.all(np.abs(d1 - d2) <= 2 * tolJ):
-        rep.viol('%s:evaluate_spline:jacobian-depends-on-values' % method,
+        rep.viol('evaluate_spline:jacobian-depends-on-values:%s' % method,
                  'max difference %.3g between Jacobians for two value sets' % float(np.abs(d1 - d2).max()))
     if vec > 1 and not np.all(np.abs(d1[0] - d1[-1]) <= 2 * tolJ[0]):
-        rep.viol('%s:evaluate_spline:jacobian-differs-across-vec' % method,
+        rep.viol('evaluate_spline:jacobian-differs-across-vec:%s' % method,
                  'max difference %.3g' % float(np.abs(d1[0] - d1[-1]).max()))
     acc.count('obs:superposition')
     if not np.all(np.abs(r3 - (r1 + alpha * r2)) <= 4 * delta[None, :] * (1 + abs(alpha))):
-        rep.viol('%s:evaluate_spline:superposition' % method, 'f(v1+a v2) != f(v1)+a f(v2)')
+        rep.viol('evaluate_spline:superposition:%s' % method, 'f(v1+a v2) != f(v1)+a f(v2)')
     rep.done()
 
 
@@ -552,15 +552,15 @@ def judge_mmsc(case, acc):
         prob, f1, J = build(tdg)
     except Exception as e:
         if not tdg:
-            rep.viol('mmsc:%s:raises:%s@%s' % (method, type(_root(e)).__name__, _where(e)), str(e)[:200])
+            rep.viol('raises:%s@%s:mmsc:%s' % (type(_root(e)).__name__, _where(e), method), str(e)[:200])
             return
-        rep.viol('mmsc:%s:training_data_gradients:raises:%s@%s:%dD' % (method, type(_root(e)).__name__, _where(e), nd),
+        rep.viol('raises:%s@%s:mmsc-training_data_gradients:%s:%dD' % (type(_root(e)).__name__, _where(e), method, nd),
                  str(e)[:200])
         tdg = False
         try:
             prob, f1, J = build(False)
         except Exception as e2:
-            rep.viol('mmsc:%s:raises:%s@%s' % (method, type(_root(e2)).__name__, _where(e2)), str(e2)[:200])
+            rep.viol('raises:%s@%s:mmsc:%s' % (type(_root(e2)).__name__, _where(e2), method), str(e2)[:200])
             return
     acc.count('cell:mmsc:' + method)
 
@@ -589,17 +589,17 @@ def judge_mmsc(case, acc):
             if good.any():
                 rep.judged = True
             if np.any(off != 0.0):
-                rep.viol('mmsc:%s:d_dx-offdiagonal' % method, 'non-zero coupling between vec entries')
+                rep.viol('mmsc:d_dx-offdiagonal:%s' % method, 'non-zero coupling between vec entries')
             bad = good & ~(np.abs(np.diag(Jx) - D2) <= tol + np.abs(D1 - D2))
             if bad.any():
                 j = int(np.argmax(bad))
-                rep.viol('mmsc:%s:d_dx' % method,
+                rep.viol('mmsc:d_dx:%s' % method,
                          'x=%s axis %d: partial %r, 7-point difference of the outputs %r (tol %.3g)'
                          % (X[j].tolist(), ax, np.diag(Jx)[j], D2[j], tol[j]))
                 break
         run(X)
     except Exception as e:
-        rep.viol('mmsc:%s:raises:%s@%s' % (method, type(e).__name__, _where(e)), str(e)[:200])
+        rep.viol('raises:%s@%s:mmsc:%s' % (type(e).__name__, _where(e), method), str(e)[:200])
     # ---- d f / d f_train
     if tdg:
         try:
@@ -625,7 +625,7 @@ def judge_mmsc(case, acc):
                     bad = ok_pts & ~(np.abs(Jt[:, q] - D2) <= tol)
                     if bad.any():
                         j = int(np.argmax(bad))
-                        rep.viol('mmsc:%s:d_dtrain' % method,
+                        rep.viol('mmsc:d_dtrain:%s' % method,
                                  'x=%s table entry %d: partial %r, 5-point difference %r (tol %.3g)'
                                  % (X[j].tolist(), int(q), Jt[j, q], D2[j], tol[j]))
                         break
@@ -637,26 +637,26 @@ def judge_mmsc(case, acc):
                 tol = 4 * delta + 8 * R.EPS * (np.abs(Jt) @ np.abs(v1.ravel()))
                 if not np.all(np.abs(got - f1) <= tol):
                     j = int(np.argmax(np.abs(got - f1) - tol))
-                    rep.viol('mmsc:%s:d_dtrain-identity' % method,
+                    rep.viol('mmsc:d_dtrain-identity:%s' % method,
                              'x=%s: <partial, training values>=%r but output=%r (tol %.3g)'
                              % (X[j].tolist(), got[j], f1[j], tol[j]))
                 f2 = run(X, v2)
                 J2 = np.array(prob.compute_totals(of=['f'], wrt=['f_train'], return_format='dict')['f']['f_train'],
                               dtype=float).reshape(K, v1.size)
                 if not np.all(np.abs(J2 - Jt) <= 16 * delta[:, None] / vmax):
-                    rep.viol('mmsc:%s:d_dtrain-depends-on-values' % method,
+                    rep.viol('mmsc:d_dtrain-depends-on-values:%s' % method,
                              'max difference %.3g' % float(np.abs(J2 - Jt).max()))
                 got = Jt @ v2.ravel()
                 tol = 4 * delta + 8 * R.EPS * (np.abs(Jt) @ np.abs(v2.ravel()))
                 if not np.all(np.abs(got - f2) <= tol):
-                    rep.viol('mmsc:%s:d_dtrain-identity' % method, 'second value set: %s vs %s'
+                    rep.viol('mmsc:d_dtrain-identity:%s' % method, 'second value set: %s vs %s'
                              % (got.tolist()[:3], f2.tolist()[:3]))
                 f3 = run(X, v3)
                 acc.count('obs:superposition')
                 if not np.all(np.abs(f3 - (f1 + alpha * f2)) <= 4 * delta * (1 + abs(alpha))):
-                    rep.viol('mmsc:%s:superposition' % method, 'f(v1+a v2) != f(v1)+a f(v2)')
+                    rep.viol('mmsc:superposition:%s' % method, 'f(v1+a v2) != f(v1)+a f(v2)')
         except Exception as e:
-            rep.viol('mmsc:%s:training-raises:%s@%s' % (method, type(e).__name__, _where(e)), str(e)[:200])
+            rep.viol('raises:%s@%s:mmsc-training:%s' % (type(e).__name__, _where(e), method), str(e)[:200])
     try:
         prob.cleanup()
     except Exception:
@@ -699,7 +699,7 @@ def judge_splinecomp(case, acc):
         J = np.array(prob.compute_totals(of=['y'], wrt=['ycp'], return_format='dict')['y']['ycp'], dtype=float)
         J = J.reshape(vec, n_i, vec, n_cp)
     except Exception as e:
-        rep.viol('splinecomp:%s:raises:%s@%s' % (method, type(e).__name__, _where(e)), str(e)[:200])
+        rep.viol('raises:%s@%s:splinecomp:%s' % (type(e).__name__, _where(e), method), str(e)[:200])
         return
     acc.count('cell:splinecomp:' + method)
     def run(v):
@@ -712,7 +712,7 @@ def judge_splinecomp(case, acc):
         for a in range(vec):
             for b in range(vec):
                 if a != b and np.any(J[a, :, b, :] != 0.0):
-                    rep.viol('splinecomp:%s:cross-vec-coupling' % method, 'non-zero partial between vec rows')
+                    rep.viol('splinecomp:cross-vec-coupling:%s' % method, 'non-zero partial between vec rows')
         Jd = np.array([J[a, :, a, :] for a in range(vec)])     # (vec, n_i, n_cp)
         if method == 'akima':
             hv = 1e-3 * vmax
@@ -735,7 +735,7 @@ def judge_splinecomp(case, acc):
                 bad = ok_pts & ~(np.abs(Jd[:, :, q] - D2) <= tol)
                 if bad.any():
                     i = np.unravel_index(np.argmax(bad), bad.shape)
-                    rep.viol('splinecomp:akima:d_dcp' + _optkey(opts),
+                    rep.viol('splinecomp:d_dcp' + _optkey(opts) + ':akima',
                              'x_interp=%r control point %d: partial %r, 5-point difference %r (tol %.3g)'
                              % (float(xi[i[1]]), int(q), Jd[i[0], i[1], q], D2[i], tol[i]))
                     break
@@ -746,20 +746,20 @@ def judge_splinecomp(case, acc):
             got = np.einsum('vij,vj->vi', Jd, v1)
             tol = 4 * delta[None, :] + 8 * R.EPS * np.einsum('vij,vj->vi', np.abs(Jd), np.abs(v1))
             if not np.all(np.abs(got - y1) <= tol):
-                rep.viol('splinecomp:%s:identity' % method, 'J.ycp=%s but y=%s' % (got[0].tolist()[:4],
+                rep.viol('splinecomp:identity:%s' % method, 'J.ycp=%s but y=%s' % (got[0].tolist()[:4],
                                                                                   y1[0].tolist()[:4]))
             y2 = run(v2)
             J2 = np.array(prob.compute_totals(of=['y'], wrt=['ycp'], return_format='dict')['y']['ycp'],
                           dtype=float).reshape(vec, n_i, vec, n_cp)
             if not np.all(np.abs(J2 - J) <= 16 * delta.max() / vmax):
-                rep.viol('splinecomp:%s:jacobian-depends-on-values' % method,
+                rep.viol('splinecomp:jacobian-depends-on-values:%s' % method,
                          'max difference %.3g' % float(np.abs(J2 - J).max()))
             y3 = run(v3)
             acc.count('obs:superposition')
             if not np.all(np.abs(y3 - (y1 + alpha * y2)) <= 4 * delta[None, :] * (1 + abs(alpha))):
-                rep.viol('splinecomp:%s:superposition' % method, 'y(v1+a v2) != y(v1)+a y(v2)')
+                rep.viol('splinecomp:superposition:%s' % method, 'y(v1+a v2) != y(v1)+a y(v2)')
     except Exception as e:
-        rep.viol('splinecomp:%s:raises:%s@%s' % (method, type(e).__name__, _where(e)), str(e)[:200])
+        rep.viol('raises:%s@%s:splinecomp:%s' % (type(e).__name__, _where(e), method), str(e)[:200])
     try:
         prob.cleanup()
     except Exception:
